@@ -184,10 +184,25 @@ async fn ws_burst(rqctx: RequestContext<vmon::srv::C>, upgraded: WebsocketConnec
     rqctx.context().log.push("CH_WROTE", uid, n as i64, "");
     // either an orderly end (close_notify) or simply letting go of the connection: what
     // was written and flushed must arrive in both cases
-    if rqctx.request.headers().get("x-vmon-end").map(|v| v.as_bytes() == b"drop").unwrap_or(false) {
+    let end = rqctx.request.headers().get("x-vmon-end").map(|v| v.as_bytes().to_vec()).unwrap_or_default();
+    if end == b"drop" {
         return Ok(());
     }
     io.shutdown().await?;
+    rqctx.context().log.push("CH_SHUTDOWN_RET", uid, 0, "");
+    if end == b"shutdown-then-read" {
+        // half-close: our side is finished, the peer's is not; keep reading until it ends
+        use tokio::io::AsyncReadExt;
+        let mut buf = [0u8; 1024];
+        let mut got = 0usize;
+        loop {
+            match tokio::time::timeout(std::time::Duration::from_secs(60), io.read(&mut buf)).await {
+                Ok(Ok(0)) | Ok(Err(_)) | Err(_) => break,
+                Ok(Ok(k)) => got += k,
+            }
+        }
+        rqctx.context().log.push("CH_PEER_BYTES_AFTER_SHUTDOWN", uid, got as i64, "");
+    }
     Ok(())
 }
 
@@ -609,6 +624,7 @@ fn run_c20(seed: u64, rounds: usize) -> Report {
             }
         };
         let mode_tag = if matches!(mode, HandlerTaskMode::Detached) { "det" } else { "cod" };
+        let mut blocked_verdict = false;
         for r in 0..rounds {
             let mut rng = Rng::derive(seed, "c20-tls", if mode_tag == "det" { 0 } else { 1 }, r as u64);
             if rng.chance(1, 3) {
@@ -629,6 +645,12 @@ fn run_c20(seed: u64, rounds: usize) -> Report {
             let n = *rng.pick(&[1usize, 17, 4096, 70_000, 262_144]);
             let payload = rng.bytes(n);
             let coalesce = rng.bool() && n <= 4096;
+            // sometimes another peer has connected to the HTTPS port and says nothing (its
+            // TLS handshake never starts) while this upgrade is attempted
+            let silent_peer = if !blocked_verdict && rng.chance(1, 4) { TcpStream::connect_timeout(&srv.addr, Duration::from_secs(5)).ok() } else { None };
+            if silent_peer.is_some() {
+                std::thread::sleep(Duration::from_millis(5));
+            }
             let (mut c, hello) = match TlsClient::connect(srv.addr, &cfg) {
                 Ok(x) => x,
                 Err(e) => {
@@ -644,14 +666,33 @@ fn run_c20(seed: u64, rounds: usize) -> Report {
             if coalesce && case == "complete" {
                 wire.extend_from_slice(&payload);
             }
-            rep.eval(format!("{mode_tag}|{case}|n{}|co{}", n.min(99999), coalesce as u8));
-            let resp = match c.request(&wire, Duration::from_secs(20)) {
+            rep.eval(format!("{mode_tag}|{case}|n{}|co{}|silent-peer{}", n.min(99999), coalesce as u8, silent_peer.is_some() as u8));
+            let resp = match c.request(&wire, Duration::from_secs(if silent_peer.is_some() { 8 } else { 20 })) {
                 Ok(r) => r,
+                Err(e) if silent_peer.is_some() => {
+                    // bounded progress: release the silent peer; the SAME connection must then
+                    // be answered (the bytes are already on their way)
+                    drop(silent_peer);
+                    match c.request(b"", Duration::from_secs(20)) {
+                        Ok(late) if case != "complete" || late.status == 101 => {
+                            blocked_verdict = true;
+                            rep.violate(
+                                "C20:tls:handshake-held-up-by-a-silent-peer",
+                                json!({"seed": seed, "round": r, "mode": mode_tag, "case": case, "while_peer_connected": e,
+                                       "after_peer_released": late.status,
+                                       "what": "an upgrade request on its own TLS connection got no answer while another TCP peer sat silent on the port, and was answered once that peer had gone"}),
+                            );
+                        }
+                        _ => rep.inconclusive("no handshake response with and without the silent peer"),
+                    }
+                    continue;
+                }
                 Err(e) => {
                     rep.inconclusive(&format!("no handshake response: {}", e.chars().take(40).collect::<String>()));
                     continue;
                 }
             };
+            drop(silent_peer);
             let wit = |extra: serde_json::Value| json!({"seed": seed, "round": r, "mode": mode_tag, "transport": "tls", "case": case,
                 "payload_len": n, "coalesced": coalesce, "status": resp.status, "detail": extra});
             let entered = |log: &EvLog| log.snapshot().iter().any(|e| e.kind == "CH_ENTER" && e.uid == uid);
@@ -719,12 +760,12 @@ fn burst_round(rep: &mut Report, rng: &mut Rng, addr: SocketAddr, cfg: &Arc<rust
     // meet back-pressure (kernel buffers on loopback hold several megabytes)
     let n = *rng.pick(&[1usize, 1000, 65_536, 1 << 20, 6 << 20, 12 << 20, 20 << 20]);
     let delay_ms = *rng.pick(&[0u64, 5, 50, 200]);
-    let end = *rng.pick(&["shutdown", "drop", "stall"]);
+    let end = *rng.pick(&["shutdown", "drop", "stall", "shutdown-then-read"]);
     let slow_reader = rng.chance(1, 4);
     // debugging aid only (never set by bin/check): VMON_BURST="<n>,<shutdown|drop>,<0|1>"
     let dbg: Option<Vec<String>> = std::env::var("VMON_BURST").ok().map(|s| s.split(',').map(|x| x.to_string()).collect());
     let (n, end, slow_reader) = match &dbg {
-        Some(v) if v.len() == 3 => (v[0].parse().unwrap_or(n), match v[1].as_str() { "drop" => "drop", "stall" => "stall", _ => "shutdown" }, v[2] == "1"),
+        Some(v) if v.len() == 3 => (v[0].parse().unwrap_or(n), match v[1].as_str() { "drop" => "drop", "stall" => "stall", "shutdown-then-read" => "shutdown-then-read", _ => "shutdown" }, v[2] == "1"),
         _ => (n, end, slow_reader),
     };
     let req = Req::new("GET", "/ws-burst")
@@ -847,7 +888,7 @@ fn burst_round(rep: &mut Report, rng: &mut Rng, addr: SocketAddr, cfg: &Arc<rust
                 // a close without close_notify is still the end of the stream
                 Err(_) => break,
             }
-            if got.len() >= n {
+            if got.len() >= n && end != "shutdown-then-read" {
                 // everything is here; what follows can only be the close
                 break;
             }
@@ -855,6 +896,24 @@ fn burst_round(rep: &mut Report, rng: &mut Rng, addr: SocketAddr, cfg: &Arc<rust
     }
     if dbg.is_some() {
         eprintln!("burst n={n} end={end} slow={slow_reader} delay={delay_ms} got={} ended={ended}", got.len());
+    }
+    if end == "shutdown-then-read" && got.len() >= n {
+        // the handler shut its side down after the burst: the client must see the end of
+        // the stream (not merely the bytes) while the handler goes on reading
+        let shut = log.snapshot().iter().any(|e| e.kind == "CH_SHUTDOWN_RET" && e.uid == uid);
+        if ended == "eof" {
+            rep.count("tls_half_close_seen_by_client", 1);
+            let _ = c.raw_write(b"after-your-shutdown");
+        } else if shut {
+            rep.violate(
+                "C20:post-upgrade-end-of-stream-not-delivered:tls",
+                wit(json!({"received": got.len(), "read_ended_by": ended, "handler_shutdown_returned": true,
+                           "what": "the handler's shutdown() returned Ok, all its bytes arrived, but the reading client saw no end of stream within 20 s"})),
+            );
+        } else {
+            rep.inconclusive("half-close: no end of stream yet, and the handler's shutdown() had not returned");
+        }
+        let _ = c.sock.shutdown(std::net::Shutdown::Both);
     }
     let want = burst_payload(uid, n);
     let wrote = log.snapshot().iter().any(|e| e.kind == "CH_WROTE" && e.uid == uid);
